@@ -8,6 +8,10 @@ checks = {
    "Every operator result on every ordered pair of a ~165-value pool (all value classes of the quantifier) is produced by the real evaluator, through three operand carriers, and checked online against the algebraic laws of the statement, an independent coercion ladder written from the manual, and the documented expansions on sampled triples. Exhaustive over the pool for pairs; sampled for triples.",
    "Trusts the harness reference ladder (refval.go) as a faithful reading of the manual; spellings the manual does not pin down are checked against the laws only.",
    "runtime monitor: algebraic-law and reference-model oracle over executed operator evaluations"),
+ "C07": ("exploration", "§5 C07",
+   "Generated tables with a unique id per row are sorted and cut by the real query pipeline (incl. the parallel path, --cpu 2..8 on 160..700 rows); an online oracle checks permutation-ness, absence of adjacent inversions under an independent comparator, equality with a reference sort for total orders, and exact LIMIT/OFFSET/PERCENT/WITH TIES arithmetic at boundary parameters.",
+   "Trusts the harness comparator (numbers, datetimes, upper-cased trimmed text, NULL position defaults from the manual). Negative limits/offsets judged as 0, PERCENT>100 as 100.",
+   "runtime monitor: sortedness/permutation/cut oracle over executed queries with unique row ids"),
 }
 order = ["C%02d" % i for i in range(1, 21)]
 na_reason = "check not built yet in this session (work in progress; see DESIGN.md)"
